@@ -19,6 +19,7 @@ def c09(ctx):
     n = cr.census_for(ctx, "C09.R1", "C09", "execution", cr.roots_exec)
     rep.floor("C09.R1", n, 100, "census sites (both profiles)")
     # R3
+    rep.both_profiles("C09.R3")
     for prof, F in sorted(ctx.facts.items()):
         reach, parent = F.reach(cr.roots_exec(F))
         defs = {F.insts[i].def_ for i in reach}
